@@ -5,6 +5,7 @@ import (
 	"slices"
 	"strings"
 	"sync"
+	"time"
 
 	"github.com/jub0bs/cors"
 	"github.com/jub0bs/cors/internal/zzverif/ref"
@@ -254,6 +255,10 @@ func c09Judge(k c09Case) *vlib.Failure {
 	if err != nil {
 		return vlib.Failf("configuration A rejected: %v", err)
 	}
+	// "A Middleware must not be copied after first use": a copy taken before first use is a middleware of its own,
+	// whose state machine does not move when the original's does
+	twin, rTwin := new(cors.Middleware), r
+	*twin = *m //nolint:govet // (copied before first use, as the documentation permits)
 	if f := c09Check(m, r, "creation"); f != nil {
 		return f
 	}
@@ -266,6 +271,11 @@ func c09Judge(k c09Case) *vlib.Failure {
 		}
 		if f := c09Check(m, r, fmt.Sprintf("step %d of %v from %s", i+1, k.Ops[:i+1], k.Init)); f != nil {
 			return f
+		}
+		if i == len(k.Ops)-1 || i == 0 {
+			if f := c09Check(twin, rTwin, fmt.Sprintf("step %d of %v from %s was applied to another middleware, of which this one is a copy taken before first use; this one", i+1, k.Ops[:i+1], k.Init)); f != nil {
+				return f
+			}
 		}
 	}
 	return nil
@@ -445,7 +455,7 @@ func c09DiagP(name string, r vlib.Req, preset map[string][]string) *vlib.Failure
 }
 
 func checkC09(c *vlib.Ctx) (string, string) {
-	ck := &Checker[c09Case]{C: c, Judge: c09Judge, Test: c09Test}
+	ck := &Checker[c09Case]{C: c, Judge: c09Judge, Test: c09Test, Watchdog: 20 * time.Second}
 	rule := "explicit-state BFS to closure over {SetDebug(true/false), Reconfigure(nil/A/B/C/invalid/Config())} on the real Middleware from NewMiddleware(A) and from the zero value (states deduplicated by a reflective dump of the middleware), every transition compared with the documented state machine and with a middleware freshly built for the reference state on a probe suite; stateless cross-check over all histories up to the stated length; non-trivial = distinct history (stateless pass) that ends in a configured state with debug on"
 	if ck.Replay() {
 		return levelMC, rule
